@@ -114,6 +114,28 @@ fn replay(b: &mut InstrSeqBuilder, orig: &LocalFunction, src: InstrSeqId, st: &R
     calls
 }
 
+/// C15: what the builder API was told to build is what is emitted, ALSO behind an unconditional transfer: a parsed body never has such a tail
+/// (the parser drops unreachable operators), a built one may
+pub fn dead_tail_scenarios(viol: &mut Vec<Json>) {
+    let cases: [(&str, u8); 4] = [("br", 0), ("return", 1), ("unreachable", 2), ("br_table", 3)];
+    for (what, k) in cases { let r = catch(|| -> Option<Vec<String>> {
+            let mut m = Module::default(); let mut fb = FunctionBuilder::new(&mut m.types, &[], &[]);
+            { let mut body = fb.func_body(); body.block(None, |b| { let id = b.id(); b.i32_const(1).drop();
+                    match k { 0 => { b.br(id); } 1 => { b.return_(); } 2 => { b.unreachable(); } _ => { b.i32_const(0); b.br_table(vec![id].into(), id); } }
+                    // the dead tail: well typed, with a nested block of its own
+                    b.i32_const(MARKER_TAIL).drop(); b.block(None, |c| { c.i32_const(MARKER_TAIL + 1).drop(); }); });
+              body.i32_const(MARKER_TAIL + 2).drop(); }
+            let f = fb.finish(vec![], &mut m.funcs); m.exports.add("f", f);
+            let o = m.emit_wasm(); amod::validate(&o, env::walrus_features(false)).ok()?; let a = amod::decode(&o).ok()?;
+            Some(a.code[0].ops.iter().map(|o| o.0.clone().unwrap_or_else(|| o.2.to_string())).collect()) });
+        let consts = |v: &Vec<String>| -> Vec<i32> { v.iter().filter_map(|t| t.strip_prefix("WOp (W_I32Const (").and_then(|r| r.split(')').next()).and_then(|n| n.parse::<i32>().ok())).collect() };
+        match r { Some(Some(ops)) => { let c = consts(&ops); let want: Vec<i32> = if k == 3 { vec![1, 0, MARKER_TAIL, MARKER_TAIL + 1, MARKER_TAIL + 2] } else { vec![1, MARKER_TAIL, MARKER_TAIL + 1, MARKER_TAIL + 2] };
+                if c != want { viol.push(Json::obj(vec![("class", Json::s("builder-dead-tail-not-emitted")), ("props", Json::s("C15 C16")), ("what", Json::s(format!("a body built with instructions after `{}` is emitted with the constants {:?}, built were {:?}", what, c, want))), ("input", Json::s(String::new())), ("observed", Json::s(ops.join("; ")))])); } }
+            Some(None) => viol.push(Json::obj(vec![("class", Json::s("output-invalid-after-build")), ("props", Json::s("C15 C02")), ("what", Json::s(format!("a body built with a well-typed tail after `{}` does not emit as a valid module", what))), ("input", Json::s(String::new()))])),
+            None => viol.push(Json::obj(vec![("class", Json::s("emit-panics-after-build")), ("props", Json::s("C15 C02")), ("what", Json::s(format!("building or emitting a body with a tail after `{}` panics", what))), ("input", Json::s(String::new()))])) } }
+}
+const MARKER_TAIL: i32 = 424_200;
+
 pub fn main(args: &[String]) {
     let out_dir = &args[0]; let seed: u64 = args[1].parse().unwrap(); let n_modules: usize = args[2].parse().unwrap();
     let mut r = Rng::new(seed);
@@ -122,7 +144,7 @@ pub fn main(args: &[String]) {
     let header = "From WV Require Import Gen.Ops Model.Common Model.IR Model.Builder Run.BodyRun Run.BuilderRun.\nOpen Scope N_scope.";
     let mut w = CaseWriter::new(out_dir, "c15", header, "kcase", "check_builder", 40);
     let feats = env::walrus_features(false);
-    let mut viol: Vec<Json> = vec![]; let mut samples = vec![];
+    let mut viol: Vec<Json> = vec![]; dead_tail_scenarios(&mut viol); let mut samples = vec![];
     let (mut n_gen, mut n_invalid, mut n_funcs, mut n_at, mut n_dang, mut n_calls, mut n_early) = (0u64, 0u64, 0u64, 0u64, 0u64, 0u64, 0u64);
     let mut distinct = std::collections::HashSet::new();
     while (n_gen as usize) < n_modules {
